@@ -90,15 +90,19 @@ contract(O + "Logger.write", props=["C13", "C07", "C08", "C02"],
                   ("current-ok", "cur_ok()")])
 
 # ------------------------------------------------------------------------------------------------ Destinations.add (C12)
+specfun("destinations_ok", ["d"],
+        "implies(not d._any_added, len(seq(d._destinations)) == 1 and isinst(seq(d._destinations)[0], 'BufferingDestination', True) and "
+        "forall(lambda k: implies(0 <= k and k < len(seq(typed(seq(d._destinations)[0], 'BufferingDestination').messages)), "
+        "is_dict(seq(typed(seq(d._destinations)[0], 'BufferingDestination').messages)[k])), 'int'))")
 contract(O + "Destinations.add", props=["C12"], types={"destinations": "tuple[role:Dest]"}, returns="none", shards=2,
          ghosts={"BUF": "seq", "NSENT": "int", "SENT": "seq"}, ghost_defaults={"NSENT": "0", "SENT": "seq(())"},
          after={"Destinations.send#0": [("NSENT", "NSENT + 1"), ("SENT", "SENT + [message]")]},
          aliases={"BUFFERED": 0},
          requires=[("current-ok", "cur_ok()"),
-                   ("buffering-until-first-add", "implies(not self._any_added, len(seq(self._destinations)) == 1 and isinst(seq(self._destinations)[0], 'BufferingDestination', True))"),
-                   ("buffered-messages-are-private-dicts", "implies(not self._any_added, forall(lambda k: implies(0 <= k and k < len(seq(typed(seq(self._destinations)[0], 'BufferingDestination').messages)), "
-                    "is_dict(seq(typed(seq(self._destinations)[0], 'BufferingDestination').messages)[k])), 'int'))"),
+
                    ("destinations-tuple-is-not-the-list", "ref(destinations) != ref(self._destinations)")],
+         assumes=[("class invariant of Destinations at method entry (established by __init__: one BufferingDestination until the first add; "
+                   "re-established by add, untouched by remove / send / addGlobalFields while buffering)", "destinations_ok(self)")],
          modifies=["#LOG", "#OFFERS", "#CALLS", "#IO", "#NTOP", "field:_last_child", "field:$uuid_str", "self._any_added", "self._destinations",
                    "seq(self._destinations)", "field:$dom", "field:$map"],
          loops={0: {"locals": {"NSENT": "int", "SENT": "seq"},
